@@ -169,6 +169,7 @@ func load(repo, overlayFile string, extraEnv []string) (*Ctx, error) {
 		return nil, fmt.Errorf("only %d functions found in the repository packages", len(c.Funcs))
 	}
 	c.resolveRoles()
+	c.resolveKnown()
 	return c, nil
 }
 
@@ -310,6 +311,18 @@ func callee(call ssa.CallInstruction) string {
 	}
 	if f := cc.StaticCallee(); f != nil {
 		if a, ok := funcAlias[f]; ok {
+			// the name the function is known under, in the form callee names have
+			if o := f.Object(); o != nil && f.Signature.Recv() != nil {
+				full := short(o.(*types.Func).FullName()) // "(*desync.queue).acquire"
+				if i := strings.LastIndex(full, "."); i >= 0 {
+					if j := strings.LastIndex(a, "."); j >= 0 {
+						return full[:i+1] + a[j+1:]
+					}
+				}
+			}
+			if strings.HasPrefix(a, "cmd.") {
+				return a
+			}
 			return "desync." + a
 		}
 		if f.Parent() != nil {
@@ -445,7 +458,7 @@ func fieldOf(v ssa.Value) string {
 		if i := strings.LastIndex(tn, "."); i >= 0 {
 			tn = tn[i+1:]
 		}
-		return tn + "." + s.Field(x.Field).Name()
+		return aliasField(tn + "." + s.Field(x.Field).Name())
 	case *ssa.Field:
 		s, ok := x.X.Type().Underlying().(*types.Struct)
 		if !ok {
@@ -455,9 +468,16 @@ func fieldOf(v ssa.Value) string {
 		if i := strings.LastIndex(tn, "."); i >= 0 {
 			tn = tn[i+1:]
 		}
-		return tn + "." + s.Field(x.Field).Name()
+		return aliasField(tn + "." + s.Field(x.Field).Name())
 	}
 	return ""
+}
+
+func aliasField(n string) string {
+	if a, ok := fieldAlias[n]; ok {
+		return a
+	}
+	return n
 }
 
 // implementers returns the named types of the library package whose method set (value or
@@ -553,6 +573,9 @@ func funcDecl(pkg *packages.Package, key string) *ast.FuncDecl {
 func (c *Ctx) constVal(name string) string {
 	if o, ok := c.Lib.Types.Scope().Lookup(name).(*types.Const); ok {
 		return o.Val().ExactString()
+	}
+	if v, ok := knownConst(name); ok {
+		return v // renamed constant: the rules compare values
 	}
 	return "<missing:" + name + ">"
 }
